@@ -71,7 +71,14 @@ pub struct FileSpec {
     /// `\\ No newline at end of file` marker after that line).
     #[serde(default)]
     pub no_final_newline: bool,
+    /// Only with `diff: Added`: the path used to be a symbolic link (a "type change"). git then
+    /// writes two sections for the one path, `deleted file mode 120000` and `new file mode 100644`.
+    #[serde(default)]
+    pub was_symlink: bool,
 }
+
+/// What the symbolic link of a `was_symlink` file pointed to.
+pub const OLD_LINK_TARGET: &str = "moved/elsewhere.txt";
 
 impl FileSpec {
     /// The path-like key that decides comment syntax and wrapper of this file.
@@ -731,7 +738,8 @@ fn diff_path(p: &str) -> String {
     }
 }
 
-pub fn render_diff_section(f: &FileSpec, rendered: &RenderedFile, ctx: usize) -> Option<String> {
+/// `flip`: of the two sections of a type change, write the new-file one first.
+pub fn render_diff_section(f: &FileSpec, rendered: &RenderedFile, ctx: usize, flip: bool) -> Option<String> {
     let p = &f.path;
     match &f.diff {
         FileDiff::None => None,
@@ -753,6 +761,13 @@ pub fn render_diff_section(f: &FileSpec, rendered: &RenderedFile, ctx: usize) ->
             }
             if rendered.no_final_newline {
                 s.push_str(NO_NEWLINE_MARKER);
+            }
+            if f.was_symlink {
+                let gone = format!(
+                    "diff --git a/{p} b/{p}\ndeleted file mode 120000\nindex 1111111..0000000\n--- a/{}\n+++ /dev/null\n@@ -1 +0,0 @@\n-{OLD_LINK_TARGET}\n{NO_NEWLINE_MARKER}",
+                    diff_path(p)
+                );
+                s = if flip { format!("{s}{gone}") } else { format!("{gone}{s}") };
             }
             Some(s)
         }
@@ -903,8 +918,8 @@ impl World {
             StdinSpec::Terminal => None,
             StdinSpec::Piped => {
                 let mut s = String::new();
-                for &i in order {
-                    if let Some(sec) = render_diff_section(&self.files[i], &rendered[i], self.diff_context) {
+                for (k, &i) in order.iter().enumerate() {
+                    if let Some(sec) = render_diff_section(&self.files[i], &rendered[i], self.diff_context, k % 2 == 1) {
                         s.push_str(&sec);
                     }
                 }
